@@ -197,6 +197,7 @@ var specs = map[string]*propSpec{
 			{Path: "./pkg/interpreter", Touch: true, TouchLocalMaps: true, L1: []string{"(*Interpreter).EvaluateExpression", "(*Interpreter).ExecuteStatement"}, L2Files: []string{"future.go"}},
 			{Path: "./pkg/vm", Touch: true, L1: []string{"(*VM).step", "(*VM).execAsync", "(*VM).execAwait"}},
 		},
+		ExtraPkgs: []extraPkg{{From: "harness/C09/export", To: "pkg/vm"}},
 		QuickSecs: 45, ThoroughSecs: 600, Chunk: 100,
 		Rule: "each run is one of: (A) 2-6 tasks issuing Resolve/Reject/Cancel/Await*/State/Value/Error on 1-4 shared futures plus All/Race/Any combinators over them, statement-level interleaving; (A') a combinator whose inputs are settled one at a time with a full drain in between (first-settled / first-success / order contracts); (B) a generated async/await route program (1-4 blocks, nesting, loops, parents that keep declaring or assigning, repeated and missing awaits) served by the real pipeline in compiled or interpreter mode, executed once under a non-preemptive reference schedule and 3-6 times under the seeded schedule; (C) one VM reused through Reset for 2-4 generated programs whose blocks are awaited at the end and compared with fresh-VM runs; a run is non-trivial if at least two tasks were runnable at once and a preemption happened; distinct = distinct fingerprints (schedule hash combined with workload tape) among those",
 		Components: []component{
